@@ -5,7 +5,7 @@ import BytomModel.Drv.EconUtil
    new                                   (NewCheckpoint of the current one)      → ok
    apply <height> <ts> <subsidy> <outs0> {T <vetoes> <votes> <fee>}*             → reward table sorted by program | err | panic
    check <height> <hasTx 0|1> <outs0>     checkCoinbaseAmount vs current rewards → ok | err | panic
-   propose <height> <script>              createCoinbaseTx outputs               → first output, then the others sorted by program | panic -/
+   propose <height> <script>              createCoinbaseTx outputs               → first output, then the others sorted by program | err | panic -/
 namespace BytomModel.Drv.C14
 open BytomModel.Drv BytomModel.Drv.EconUtil BytomModel.Model.Checkpoint
 
@@ -50,10 +50,11 @@ def step (s : St) (line : String) : St × String :=
   | ["propose", h, script] =>
     match h.toNat?, parseKey script with
     | some h, some script =>
-      match createCoinbaseOutputs s.p id h script s.c.rewards with
-      | some (o :: rest) => (s, showOuts (o :: rest.foldr insertO []))
-      | some [] => (s, "-")
-      | none => (s, "panic")
+      match createCoinbaseTx s.p id h script s.c.rewards with
+      | .ok (o :: rest) => (s, showOuts (o :: rest.foldr insertO []))
+      | .ok [] => (s, "-")
+      | .err => (s, "err")
+      | .panic => (s, "panic")
     | _, _ => (s, "bad-op")
   | _ => (s, "bad-op")
 
